@@ -28,6 +28,9 @@ CHECKS = {
  "C15": dict(cat="exploration", tech="runtime oracle over generated keys/values on the real codec (ASan+UBSan build) + valgrind memcheck subset",
              text="Every BuildKey kind (names/payloads over all byte values incl. NUL, 0..5 NUL-free filters) and every BuildValue kind (1..6 output infos with all seven FileInfo fields random, signatures, 0..6 strings incl. empty) is made through the public constructors; every accessor of fromData(toData(x)) is compared with the logical model, re-encoding of decoded values and of copies/moves must be identical, one single-field mutation per case must change the encoding, a per-shard encoding->model map catches accidental collisions, kind tags are checked distinct and invertible.",
              note="Only encoder output is decoded; only contract-respecting values are generated; short keys live in std::string SSO storage, so a short over-read there is invisible to ASan; memcheck sees a few thousand cases on the plain flavor.", ref="4/C15"),
+ "C16": dict(cat="exploration", tech="runtime monitor over a client-boundary event log of the real lane-based and serial execution queues (TSan and ASan builds), helper-child behaviours, fault injection (bad executables, descriptor exhaustion, SIGUSR1 storm, strace poll->ENOMEM)",
+             text="Generated job forests (50..2000 jobs, both priorities, jobs adding jobs, concurrent submitters) x 1/2/3/8 lanes x both schedulers or the serial queue x teardown timing x cancellation; children of one helper binary (0..1 MB on stdout/stderr, exit 0..255, self-signal, early close, lane release, SIGINT-ignoring, environment dump). Offline monitors: each job body exactly once before the destructor returns, bodies in flight <= lanes and one per lane id, processStarted/processFinished/completion exactly once in order with the status of the child's real fate and the exit code preserved, output bytes equal and none after completion, environment precedence, no real pid started after cancelAllJobs() returns, no helper child or thread left at quiescence.",
+             note="Timing windows are sampled, not enumerated; LLBUILD_TEST=1 shortens the SIGKILL escalation; the signal storm spares the harness main thread; connectToConsole is not exercised.", ref="4/C16"),
  "C17": dict(cat="exploration", tech="differential runtime monitor: generated valid Ninja manifest trees loaded by llbuild (ASan/UBSan) vs the installed ninja 1.11.1 and a reference evaluator written from the manual; shell-quoting round trip through /bin/sh",
              text="Every build statement of every generated manifest tree (scoping, lazy rule variables, escapes, continuations incl. CR LF, include/subninja to depth 3 with shadowing and parent rules, keyword-like identifiers, all bytes 0x80..0xFF, hostile path alphabets) must have the outputs, three input classes, rule, expanded command, description, deps/depfile, pool, flags, rspfile and rspfile_content that ninja shows or, where ninja shows nothing, the reference computes; every quoted path and random byte strings must read back unchanged through /bin/sh -c 'printf %s <escaped>'.",
              note="Only valid manifests inside the property's premises; `default` statements are not build statements and are written literally and not judged; quoting of $in/$out in description and rspfile_content is not judged; ninja-vs-reference disagreements are discarded and counted.", ref="4/C17"),
